@@ -7,7 +7,7 @@ from .common import *
 from .layout import Layouts, term_s
 from ..engine import VERIF
 
-LEVEL = "proof"
+LEVEL = "other"
 EXPLANATION = (
     "The wire layout of the V5/V7 header and record parsers is recovered from the MIR of the "
     "nom-derive generated parsers (ordered list of field, width, primitive, transform) and compared "
